@@ -67,6 +67,11 @@ P = {
  "C19": ("GT.Props.C19: C19_affine_image, C19_factor, C19_law (push-forward of the standard Gaussian under μ+Lξ is the measure with "
          "density N(μ,Σ)), C19_joint_law / C19_sample_law (mutual independence across draws and components), C19_mean_cov. The PRNG is a "
          "trusted primitive; the statistical clause is a test (thorough tier).", "§5 C19"),
+ "C20": ("GT.Props.C20 + GT.Math.TruncMoments: C20_eval (value inside, zero outside, closed ends), C20_mass, C20_x, C20_x2, "
+         "C20_xk for EVERY k (the scan recursion is proved equal to the truncated moments, finite and infinite limits), C20_additive, "
+         "C20_density_* (normalised variant: u/Z_trunc inside, integrates to one, exact mean and variance), C20_cdf_difference (the "
+         "mirrored upper-tail evaluation is the identity over the reals), constructor establishes the hypotheses (mkTruncMeasure_ok). "
+         "The far-tail *float* accuracy clause is outside the theorems (validated against mpmath/scipy quadrature).", "§5 C20"),
 }
 
 
